@@ -187,6 +187,15 @@ impl SSAStatement<Config> for Statement {
                     args.push(name.with_version(env_version));
                     self.propagate_types(&env.declarations);
                     self.cache_variable_use();
+                } else if !args.iter().any(|arg| arg.version().is_none()) {
+                    // The variable is declared but has not been assigned along this
+                    // edge. The phi statement then merges the initial value of the
+                    // variable, which has no SSA version. We record this as an
+                    // unversioned argument to ensure that the phi expression is not
+                    // taken to be determined by the remaining arguments.
+                    args.push(name.without_version());
+                    self.propagate_types(&env.declarations);
+                    self.cache_variable_use();
                 }
             }
             // If this is not a phi statement we panic.
